@@ -19,6 +19,7 @@ import SpsdkVerif.Proofs.MbootFault
 import SpsdkVerif.Proofs.MbootRefine
 import SpsdkVerif.Proofs.MbootBound
 import SpsdkVerif.Proofs.MbootTrunc
+import SpsdkVerif.Proofs.MbootAbort
 import SpsdkVerif.Model.Sdp
 import SpsdkVerif.Generated.SdpConsts
 import SpsdkVerif.Proofs.Sdp
@@ -413,6 +414,27 @@ theorem no_fault_refines (ops : List Op) (h : Host) (d d' : Dev) (rs : List (Exc
         refine ⟨h'', ?_, s2⟩
         simp only [runOps, e1, e2, st1]
 
+/-- `enable_data_abort` after an aborted operation: `receive_sb_file(check_errors=c)` resets it only on normal return -/
+def abortEda (ce : Bool) : Op → Bool
+  | .receiveSbFile _ c => ce && c
+  | _ => false
+
+/-- **the device aborts a host→device data phase** (the `receive_sb_file` abort path; also write_memory and
+    kp_write_key_store): serial link — ABORT frame instead of the ACK of packet `k+1`; USB-HID — a zero-length report,
+    noticed before the next packet (`check_errors=True`) or at the final read.  Exactly the `k` packets before the abort took
+    effect on the device, the operation returns `False` (raises `McuBootCommandError(AbortDataPhase)` with
+    `cmd_exception`), `status_code` is the device's AbortDataPhase, and host and device are in step again. -/
+theorem abort_refines (h : Host) (d d' : Dev) (op : Op) (res : Except HErr Val) (st k : Nat)
+    (hs : Synced h d) (hmp : 0 < d.maxPacket ∧ d.maxPacket < 65536) (hmem : d.mem.length < 4294967296)
+    (hnf : d.faults = []) (hab : d.abortAfter = some k) (himg : d.imageMode = false)
+    (hmps : h.mps = some d.maxPacket) (heda : h.eda = false) (hargs : op.argsOK)
+    (hspec : specAbort h.cfg.cmdExc d k op = some (d', res, st)) :
+    ∃ h', runOp op h = (res, h') ∧ Synced h' d' ∧ h'.status = st ∧ h'.cfg = h.cfg ∧ h'.mps = h.mps ∧
+      h'.eda = abortEda h.cfg.cmdExc op := by
+  obtain ⟨h', a, b, c, e, f, g⟩ := Mboot.abort_refines h d d' op res st k hs hmp hmem hnf hab himg hmps heda hargs hspec
+  refine ⟨h', a, b, c, e, f, ?_⟩
+  cases op <;> exact g
+
 /-! ## 6b. bounded time -/
 
 /-- `bounded`: on ANY replayed stream (well-formed or garbage, both transports, strict or partial reads) an operation
@@ -570,6 +592,9 @@ example : specOps false false [.writeMemory 2 [9, 9, 9, 9, 9] 0, .readMemory 0 1
     some ([(.ok (.bool true), 0), (.ok (.bytes [1, 2, 9, 9, 9, 9, 9, 8, 9, 10]), 0), (.ok .none, 10200)],
           { exDev with mem := [1, 2, 9, 9, 9, 9, 9, 8, 9, 10], ncmd := 3 }) := by decide +kernel
 
+example : specAbort false { mem := [1, 2, 3, 4, 5, 6], maxPacket := 2, abortAfter := some 1 } 1 (.writeMemory 1 [9, 9, 9, 9] 0) =
+    some ({ mem := [1, 9, 9, 4, 5, 6], maxPacket := 2, abortAfter := some 1, ncmd := 1, pktCount := 1 }, .ok (.bool false),
+          Spec.stAbortDataPhase) := by decide +kernel
 example : crc16 [0x31, 0x32, 0x33, 0x34, 0x35, 0x36, 0x37, 0x38, 0x39] = 0x31C3 := by decide +kernel
 -- the ping response of the bootloader reference manual
 example : pingResponse 0x50010300 0 = [0x5A, 0xA7, 0x00, 0x03, 0x01, 0x50, 0x00, 0x00, 0xFB, 0x40] := by decide +kernel
